@@ -5,6 +5,8 @@ R8.8  parsed_schemas only grows during a load (no del / pop / clear outside Pars
 R8.2  ownership of the tracker state (who may write recursion_depth / schema_stack / schema_states)
 R8.3  every recursion cycle of the parser's call graph goes through the gate (_parse_schema)
 R8.4  the gate bounds depth (increment before check; depth test dominates CONTINUE_PARSING)
+R8.10 every default of the depth limit x frames per depth unit fits CPython's default recursion limit (placeholder before RecursionError)
+R8.9  depth accounting: every path through enter changes recursion_depth by exactly +1, every path through exit by -1 (0 at depth 0)
 R8.5  exit restores state (decrement, stack removal, IN_PROGRESS -> COMPLETED)
 R8.6  build_schemas keeps its "every declared name is present" post-condition
 """
@@ -14,7 +16,7 @@ import ast
 from typing import Dict, List, Optional, Set, Tuple
 
 from sa.cfg import CFG, forward, witness_path
-from sa.model import AnalysisError, Function, Repo, calls_in, dotted, norm, own_nodes
+from sa.model import AnalysisError, Function, Repo, calls_in, const_str, dotted, norm, own_nodes
 from sa.match import Locals, match
 from sa.report import Report, with_flatten_fallback
 from sa.resolve import CallGraph
@@ -378,6 +380,48 @@ def run(repo: Repo, rep: Report, tier: str) -> None:
 
     with_flatten_fallback(rep, ucd.func(ENTER), _r84_enter)
 
+    # R8.9: depth accounting - the depth equals the number of open enters.  Along every path through enter (the cycle check written out)
+    # the net change of recursion_depth is +1; along every path through exit it is -1 (0 only where depth is already 0).  A path of
+    # enter that gives the unit back while its caller still calls exit under-counts the nesting: the limit is reached late or never.
+    from sa.flatten import flatten as _fl89
+
+    def _net_deltas(fn: Function) -> Dict[int, str]:
+        f2 = _fl89(fn)
+        cfg = CFG(f2.node)
+
+        def tr(node, v, lab):
+            d = v
+            if node.kind == "stmt" and isinstance(node.ast, ast.AugAssign) and isinstance(node.ast.target, ast.Attribute) and node.ast.target.attr == "recursion_depth" \
+                    and isinstance(node.ast.value, ast.Constant) and isinstance(node.ast.value.value, int):
+                k = node.ast.value.value
+                d = v + k if isinstance(node.ast.op, ast.Add) else v - k if isinstance(node.ast.op, ast.Sub) else v
+            elif node.kind == "stmt" and isinstance(node.ast, ast.Assign) and any(isinstance(t, ast.Attribute) and t.attr == "recursion_depth" for t in node.ast.targets):
+                d = 99  # overwritten: not a counter step
+            if abs(d) > 5 and d != 99:
+                return []
+            return [d]
+
+        states, wit = forward(cfg, 0, tr)
+        out: Dict[int, str] = {}
+        for v in sorted(states[cfg.exit]):
+            path = [cfg.nodes[n] for n, _ in witness_path(wit, cfg.exit, v)]
+            out[v] = " -> ".join(f"L{n.ast.lineno}" for n in path if n.ast is not None and hasattr(n.ast, "lineno"))[-160:]
+        return out
+
+    for fname, want, label in ((ENTER, {1}, "+1"), (EXIT, {-1, 0}, "-1 (0 where the depth is already 0)")):
+        fn89 = ucd.func(fname)
+        ds = _net_deltas(fn89)
+        sub = f"{ucd.relpath}:{fname} net change of recursion_depth"
+        if not ds:
+            rep.error(f"R8.9: no normal exit of {fname} reached by the depth-accounting dataflow")
+        elif set(ds) <= want and (fname != EXIT or -1 in ds):
+            rep.ok("R8.9", sub, f"{label} on every path ({sorted(ds)})", fn89.loc())
+        else:
+            badv = sorted(set(ds) - want)[0] if set(ds) - want else sorted(ds)[0]
+            rep.violation("R8.9", sub, f"{fn89.fq}|depth-accounting|{sorted(ds)}",
+                          f"a path through {fname} changes recursion_depth by {badv:+d} (expected {label}): {ds[badv]} - the depth no longer equals the number of open "
+                          "enters, so the configured limit is reached too late (or never: RecursionError on deep documents) or too early", fn89.loc())
+
     def _r84_check(check: Function, rep) -> None:
         cfg = CFG(check.node)
         dom = cfg.dominators()
@@ -545,6 +589,7 @@ def run(repo: Repo, rep: Report, tier: str) -> None:
 
 
     with_flatten_fallback(rep, repo.func("core.loader.schemas.extractor:build_schemas"), _r86)
+    rule_default_limit_fits_stack(repo, rep, "R8.10")
 
 def _registration_rules(repo: Repo, rep: Report) -> None:
     """R8.7: every declared schema ends up registered (rules of C02/R2.6: registration on the way out of _parse_schema, no vetoing flag
@@ -615,3 +660,89 @@ def rule_registry_monotone(repo: Repo, rep, rule: str = "R8.8") -> None:
                       "_parse_schema finds nothing to return and the declared schema is missing from the result ('... was not parsed')", fn.loc(n))
     if not bad:
         rep.ok(rule, "core.parsing / core.loader", f"{n_fn} functions: no entry is ever removed from parsed_schemas outside ParsingContext's reset API", "src/pyopenapi_gen/core:1")
+
+
+# ------------------------------------------------------------------------------------------------ R8.10 the default limit fits the interpreter's stack
+FRAMES_PER_LEVEL = 6  # confirmed by reading: one unit of tracker depth on the costliest chain (a named allOf / oneOf member that is a $ref) is
+#                       _parse_schema -> _parse_composition_keywords -> _process_all_of / _parse_one_of_schemas -> <lambda> -> _parse_schema (member)
+#                       -> _resolve_ref -> _parse_schema (target); a $ref property costs 3 (_parse_schema -> _parse_properties -> _resolve_ref)
+STACK_BUDGET = 1000   # CPython's default recursion limit (the generator never raises it)
+BASE_FRAMES = 60      # frames already on the stack when schema parsing starts (CLI, generator, loader, build_schemas)
+
+
+def rule_default_limit_fits_stack(repo: Repo, rep, rule: str = "R8.10") -> None:
+    """Termination "with a placeholder, not with RecursionError" needs the tracker's depth limit to be reached before the interpreter's
+    frame limit: default limit x frames per depth unit + frames below the parser <= 1000.  Every default of PYOPENAPI_MAX_DEPTH (and the
+    tracker's own `max_depth` field default) is evaluated as an integer constant - an expression over `sys.getrecursionlimit()` is
+    evaluated with CPython's default of 1000 - and checked against that budget.  The frames-per-unit figure is confirmed by reading and
+    cross-checked against the longest *directly resolvable* recursion cycle through _parse_schema in the call graph."""
+    def const_int(e: ast.AST) -> Optional[int]:
+        if isinstance(e, ast.Constant) and isinstance(e.value, int) and not isinstance(e.value, bool):
+            return e.value
+        if isinstance(e, ast.Constant) and isinstance(e.value, str) and e.value.strip().isdigit():
+            return int(e.value)
+        if isinstance(e, ast.Call) and dotted(e.func) == "sys.getrecursionlimit":
+            return STACK_BUDGET
+        if isinstance(e, ast.Call) and dotted(e.func) == "int" and len(e.args) == 1:
+            return const_int(e.args[0])
+        if isinstance(e, ast.BinOp):
+            a, b = const_int(e.left), const_int(e.right)
+            if a is None or b is None:
+                return None
+            try:
+                return {ast.Add: a + b, ast.Sub: a - b, ast.Mult: a * b, ast.FloorDiv: a // b if b else None}.get(type(e.op))  # type: ignore[return-value]
+            except Exception:
+                return None
+        return None
+
+    live = set(repo.import_closure(["generator.client_generator"]))
+    sites: List[Tuple[str, ast.AST, ast.AST]] = []
+    for mn in sorted(live):
+        if not mn.startswith(("pyopenapi_gen.core.parsing", "pyopenapi_gen.core.loader")):
+            continue
+        mod = repo.modules[mn]
+        for c in ast.walk(mod.tree):
+            if isinstance(c, ast.Call) and isinstance(c.func, ast.Attribute) and c.func.attr == "get" and "environ" in norm(c.func.value) and len(c.args) == 2 \
+                    and const_str(c.args[0]) == "PYOPENAPI_MAX_DEPTH":
+                sites.append((mod.relpath, c, c.args[1]))
+        if mn.endswith("unified_cycle_detection"):
+            for st in ast.walk(mod.tree):
+                if isinstance(st, ast.AnnAssign) and isinstance(st.target, ast.Name) and st.target.id == "max_depth" and st.value is not None:
+                    sites.append((mod.relpath, st, st.value))
+    rep.require(len(sites) >= 3, f"{rule}: only {len(sites)} defaults of the depth limit found (floor 3)")
+    # cross-check of the frozen figure: the longest directly resolvable gate-to-gate cycle must not exceed it
+    parse_mods = [m for m in repo.modules if m.startswith(("pyopenapi_gen.core.parsing", "pyopenapi_gen.core.loader"))]
+    cg = CallGraph(repo, parse_mods, by_name=True)
+    gates = [k for k in cg.funcs if k.endswith(":_parse_schema")]
+    longest = 0
+    if gates:
+        gate = gates[0]
+
+        def dfs(n: str, path: List[str]) -> None:
+            nonlocal longest
+            for m in cg.succ[n]:
+                if m == gate:
+                    longest = max(longest, len(path))
+                elif m not in path and len(path) < 12:
+                    dfs(m, path + [m])
+
+        dfs(gate, [gate])
+    if longest > FRAMES_PER_LEVEL:
+        rep.error(f"{rule}: the call graph now has a direct recursion cycle of {longest} frames through _parse_schema, more than the {FRAMES_PER_LEVEL} this rule was confirmed with")
+        return
+    for rel, node, dflt in sites:
+        sub = f"{rel}:default depth limit `{norm(dflt)[:40]}`"
+        if isinstance(dflt, ast.Attribute) and dflt.attr == "max_depth":
+            rep.ok(rule, sub, "falls back to the tracker's max_depth field (checked at its own default)", f"{rel}:{node.lineno}")
+            continue
+        d = const_int(dflt)
+        if d is None:
+            rep.error(f"{rule}: the default depth limit `{norm(dflt)[:60]}` ({rel}:{node.lineno}) is not an integer constant this rule can evaluate")
+            continue
+        need = d * FRAMES_PER_LEVEL + BASE_FRAMES
+        if need <= STACK_BUDGET:
+            rep.ok(rule, sub, f"{d} x {FRAMES_PER_LEVEL} frames + {BASE_FRAMES} = {need} <= {STACK_BUDGET}: the limit is reached before the interpreter's recursion limit", f"{rel}:{node.lineno}")
+        else:
+            rep.violation(rule, sub, f"{rel}|default-limit-exceeds-stack|{d}",
+                          f"a default limit of {d} needs about {d} x {FRAMES_PER_LEVEL} + {BASE_FRAMES} = {need} Python frames, more than the interpreter's {STACK_BUDGET}: a deep (acyclic) "
+                          "document ends in RecursionError instead of being cut by depth placeholders", f"{rel}:{node.lineno}")
